@@ -162,6 +162,11 @@ fn spawn_worker(seed: u64, tier: &str, start: u64, stride: u64, count: u64, dead
         .unwrap_or_else(|e| harness_error(&format!("cannot start worker: {e}")))
 }
 
+/// Raw violations seen so far by all workers of this run: beyond a few hundred, more of the same teach nothing,
+/// and a thorough run on a broken tree need not take its full half hour.
+static VIOLATIONS_SEEN: std::sync::atomic::AtomicU64 = std::sync::atomic::AtomicU64::new(0);
+const ENOUGH_VIOLATIONS: u64 = 300;
+
 struct WorkerOut {
     /// The parent killed the worker because it was still running long after the wall cap
     /// (code under test sleeping or spinning in real time, outside the simulator's control).
@@ -203,6 +208,7 @@ fn collect(child: std::process::Child, start: u64, stride: u64, kill_after_s: u6
     let mut reports = vec![];
     let mut deadline_at = None;
     let mut next = start;
+    let mut enough = false;
     for line in BufReader::new(out).lines() {
         let line = match line {
             Ok(l) => l,
@@ -217,7 +223,15 @@ fn collect(child: std::process::Child, start: u64, stride: u64, kill_after_s: u6
         match serde_json::from_str::<ScenarioReport>(&line) {
             Ok(r) => {
                 next = r.i + stride;
+                let n = r.violations.len() as u64;
                 reports.push(r);
+                if VIOLATIONS_SEEN.fetch_add(n, std::sync::atomic::Ordering::SeqCst) + n >= ENOUGH_VIOLATIONS {
+                    enough = true;
+                    unsafe {
+                        libc::kill(pid, libc::SIGKILL);
+                    }
+                    break;
+                }
             }
             Err(e) => harness_error(&format!("worker produced an unreadable line: {e}: {}", &line[..line.len().min(200)])),
         }
@@ -230,6 +244,10 @@ fn collect(child: std::process::Child, start: u64, stride: u64, kill_after_s: u6
     }
     let _ = watchdog.join();
     let stderr = err_thread.join().unwrap_or_default();
+    if enough {
+        // stopped on purpose: neither stuck nor dead
+        return WorkerOut { stuck: false, reports, deadline_at: Some(next), status: std::os::unix::process::ExitStatusExt::from_raw(0), stderr, last_started: Some(next) };
+    }
     WorkerOut { stuck: stuck.load(std::sync::atomic::Ordering::SeqCst), reports, deadline_at, status, stderr, last_started: Some(next) }
 }
 
